@@ -36,6 +36,17 @@ func init() {
 				"in every state the queue is drained, then: ledger vs reference (C01 oracle), wallet pending buckets vs reference pending model, read-back of every pending entry, spent_by_unmined flag of every coin, "+
 				"and two automatic-selection probes; distinct_nontrivial = distinct drained observations")
 			cov["bounds"] = map[string]interface{}{"depth": depth, "opts": opts}
+			// several pending spenders of one coin: from a state in which the wallet holds two coins,
+			// a two-input spend, a conflicting spend of its first input, and blocks that confirm a
+			// conflict on either input - in every relay order
+			so := map[string]interface{}{"relay": true, "templates": []string{"e"}, "patterns": []string{"E", "R"}, "max_reorg": 1, "max_queue": 1, "max_height": 6, "max_relay": 4, "no_b": true,
+				"relay_templates": []string{"s2", "cf", "sp", "dup"}, "pending_blocks": []string{"c2", "cc", "cp"}, "setup": []string{"x.pa", "d", "x.pa", "d"}}
+			sh, err := runBFS(c.Bin, c.Scratch, bfsCfg{Model: "c01", Opts: so, Depth: map[bool]int{false: 6, true: 9}[c.Tier == "thorough"], Workers: c.Workers, Deadline: dl, Recycle: 120, OpenTags: openTags(c)})
+			if err != nil {
+				return nil, nil, nil, err
+			}
+			cov["shared_coin_pass"] = map[string]interface{}{"states": sh.States, "transitions": sh.Transitions, "depth_completed": sh.DepthDone, "exhaustive": sh.Exhaustive, "per_event_transitions": sh.PerEvent, "opts": so}
+			out.Violations = append(out.Violations, sh.Violations...)
 			return cov, []string{
 				"the node's own mempool is empty: pending transactions reach the wallet only through relay notifications",
 				"relay notifications are explored only when no tip notification is queued (a lagging wallet ignores relays by design)",
